@@ -36,7 +36,7 @@ RULE = ('a case = 1–4 real balanced reactions from a 17-reaction library over 
         'revision history on fresh Chemical copies (chemical.Hf / .Hfus = … of participating chemicals, chemicals.refresh_constants(), '
         'before or between the stream operations; reference = the chemicals\' current values); then isothermal and '
         'adiabatic reaction of gas / liquid / multi-phase feeds at 280–450 K (30 % at 298.15 K) with random non-negative '
-        'compositions (some deficient → InfeasibleRegion), read histories (H/Hnet/C read, reaction at unchanged T and P, another '
+        'compositions (some deficient → InfeasibleRegion), link histories (mass view read, link_with(copy, TP=False|True), then reactions), read-only Reaction.conversion(stream) queries before reacting, read histories (H/Hnet/C read, reaction at unchanged T and P, another '
         'memoised property peek=C|S|F_vol|rho|mu|kappa|Cn|V|Cp read, then Hnet or adiabatic_reaction on the same stream) and heat inputs Q = C·ΔT, ΔT ∈ [−40, 120] K; '
         'non-trivial = a reaction with X ≠ 0 applied to a feed containing its reactant; distinct = distinct op lists')
 ASSUMPTIONS = [
@@ -321,6 +321,7 @@ def run_impl(case: Case) -> ImplResult:
     counts = collections.Counter()
     nontrivial = False
     rx, streams = {}, {}
+    keepalive, linked = [], {}
     def emit(line, ans): model_in.append(line); outs.append(ans)
     def fail(sig, what): failures.append({'signature': sig, 'op_index': len(model_in) - 1, 'what': what})
     def emit_pkg():
@@ -486,6 +487,44 @@ def run_impl(case: Case) -> ImplResult:
                 s = tmo.MultiStream(None, T=T, P=P, phases=tuple(ph), thermo=th)
                 for ID, p_, a in flows: s.imol[p_, ID] = float(a)
             streams[sid] = s
+        elif op == 'link':
+            # the stream takes its flows from another stream (`link_with(other, flow=True, phase=True, TP=…)`) after its mass
+            # view was read: whatever is reacted afterwards must act on the flows the stream now shows
+            if t[1] not in streams: tags.add('skip:stream-dead'); continue
+            s = streams[t[1]]
+            _ = (s.imass.data, s.F_mass)                       # the mass view exists (as after Stream(..., units='kg/hr'))
+            other = s.copy()
+            keepalive.append(other)
+            before = flat_n(s, tuple(s.phases) if isinstance(s, tmo.MultiStream) else ())
+            try:
+                s.link_with(other, flow=True, phase=True, TP=(t[2] == '1'))
+            except PROP_ERRORS:
+                tags.add('skip:link-rejected'); continue
+            linked[t[1]] = (s, other)
+            tags.add('link:TP' if t[2] == '1' else 'link:flows-only')
+            if flat_n(s, tuple(s.phases) if isinstance(s, tmo.MultiStream) else ()) != before:
+                fail('link-changed-flows', 'link_with to an identical copy changed the flows the stream shows')
+        elif op == 'conv':
+            # the read-only query Reaction.conversion(stream) (what would react) must leave the stream as it was
+            if t[2] not in streams: tags.add('skip:stream-dead'); continue
+            x, s = rx[t[1]], streams[t[2]]
+            if x['kind'] != 'single': continue
+            rec = x['rec']
+            if bool(rec['phases']) != isinstance(s, tmo.MultiStream) or (rec['phases'] and tuple(s.phases) != tuple(rec['phases'])):
+                tags.add('skip:phase-mismatch'); continue
+            n_before, chems_before = flat_n(s, rec['phases']), s.chemicals
+            try: Hf_before = float(s.Hf)
+            except PROP_ERRORS: continue
+            x['obj'].conversion(s)
+            tags.add('conv:other-package' if s.thermo.chemicals is not ta.chemicals else 'conv:same-package')
+            Hf_ind = sum(CHEM[IDS[k % len(IDS)]]['Hf'] * v for k, v in enumerate(n_before))
+            sc_ = sum(abs(CHEM[IDS[k % len(IDS)]]['Hf'] * v) for k, v in enumerate(n_before))
+            if (s.chemicals is not chems_before or s.imol.chemicals is not chems_before or flat_n(s, rec['phases']) != n_before
+                    or not abs(float(s.Hf) - Hf_ind) <= 1e-9 * sc_ + 1e-12):
+                fail('conversion-query-changed-stream',
+                     f'after the read-only query Reaction.conversion(stream) the stream shows Hf = {float(s.Hf)!r} (before: {Hf_before!r}; '
+                     f'Σ Hf_i·n_i of its flows: {Hf_ind!r}); its flow indexer is mapped on '
+                     f'{"its own" if s.imol.chemicals is chems_before else "the reaction\'s"} chemicals')
         elif op == 'view':
             # a phase view of a MultiStream (`ms['l']`): a single-phase Stream sharing the parent's flows and T, P
             if t[2] in streams:
@@ -616,6 +655,8 @@ def run_impl(case: Case) -> ImplResult:
                     tags.add('skip:no-H-model'); del streams[t[2]]; continue
                 n1 = flat_n(s, phases)
                 dHnet = Hnet1 - Hnet0
+                if t[2] in linked and linked[t[2]][0] is s and flat_n(linked[t[2]][1], phases) != n1:
+                    fail('linked-streams-diverged', 'after rxn(stream) the stream and the stream it is linked with (flow=True) show different flows')
                 check_current(s, H1, Hnet1, 'after-iso', abs(H1) + abs(Hf1))
                 emit('iso %s n=%s H0=%s H1=%s' % (t[1], frs(n0), fr(H0), fr(H1)),
                      'n=%s Hf0=%s Hf1=%s %sdHnet=%s chk=ok' % (frs(n1), fr(Hf0), fr(Hf1),
@@ -976,6 +1017,10 @@ def gen_case(rng):
             ops.append('view %s s%d %s' % (sname, sidx, sph))
         else:
             ops.append('S s%d %d %s %s %s %s' % (sidx, pk, num(T), num(P), sph, ','.join(flows)))
+        if sname[0] == 's' and rng.random() < 0.15:
+            ops.append('link %s %d' % (sname, 0 if rng.random() < 0.7 else 1))       # flows taken from another stream
+        if structure == 'single' and rng.random() < 0.25:
+            ops.append('conv %s %s' % (top, sname))                                  # read-only conversion query first
         # read histories: (H, Hnet, C are read before every reaction) → reaction at unchanged T, P → another memoised
         # property (`peek=`) → H / Hnet again, or adiabatic_reaction started from that state
         def pkk(p): return (' peek=' + rng.choice(PEEKS)) if rng.random() < p else ''
@@ -1011,6 +1056,10 @@ def generate(rng, tier, index, nworkers):
 
 def corpus():
     return [
+        # mass view read → link_with(other, TP=False) → weight-basis reaction; conversion query on a stream of the other package
+        Case(['R r0 wt 0.7 H2 ph=- :: 2 H2 + O2 -> 2 Water', 'S s0 0 320 101325 g H2:g:10,O2:g:20,Water:g:100', 'link s0 0', 'iso r0 s0',
+              'S s1 1 320 101325 g H2:g:10,O2:g:20,Water:g:100', 'conv r0 s1', 'iso r0 s1',
+              'S s2 1 350 101325 g H2:g:10,O2:g:20,Water:g:100', 'conv r0 s2', 'adia r0 s2 0 g']),
         # the Hnet setter before and after a weight-defined reaction at 10 bar, stream held in the other package
         Case(['R r0 wtc 0.5 CO ph=- :: 56.0202 CO + 31.9988 O2 -> 88.019 CO2', 'dh r0',
               'S s0 1 350 1000000 g CO:g:10,O2:g:20,N2:g:50', 'sethnet s0 40', 'iso r0 s0 peek=C', 'sethnet s0 -25 peek=S', 'adia r0 s0 10 g']),
